@@ -123,6 +123,11 @@ func H_life_w() {
 	conc := hLifeNum > 1
 	if conc {
 		num = hLifeNum
+		// optionally the first sink fails at call `sfail`: whatever the calls then report, every
+		// one of them must return, and Reset must give a working Writer again
+		if sf := vfParam("sfail"); sf >= 0 {
+			sinks[0].failAt = sf
+		}
 	}
 	vfAssert("w-initial-apply", zw.Apply(BlockSizeOption(Block64Kb), BlockChecksumOption(bc0), ChecksumOption(true), ConcurrencyOption(num)) == nil)
 	// model
@@ -138,6 +143,8 @@ func H_life_w() {
 	for step := 0; step < L; step++ {
 		op := vfChoice("op", 7)
 		sink := sinks[cur]
+		// flaky: the current sink is the one that fails at some call: errors are then legitimate
+		flaky := conc && sink.failAt >= 0
 		// quiet: no library goroutine can be touching the sink right now
 		quiet := !conc || phase != 1
 		before := 0
@@ -172,7 +179,7 @@ func H_life_w() {
 				vfAssert("w-write-after-close-fails", vfAnd(err != nil, n == 0))
 				vfAssert("w-write-after-close-no-output", len(sink.buf) == before)
 				failed = true // a failed call: nothing more is promised until Reset
-			} else if tainted && err != nil {
+			} else if (tainted || flaky) && err != nil {
 				failed = true
 			} else {
 				vfAssert("w-write-ok", vfAnd(err == nil, n == 2))
@@ -189,7 +196,7 @@ func H_life_w() {
 				vfAssert("w-readfrom-after-close-fails", vfAnd(err != nil, n == 0))
 				vfAssert("w-readfrom-after-close-no-output", len(sink.buf) == before)
 				failed = true
-			} else if tainted && err != nil {
+			} else if (tainted || flaky) && err != nil {
 				failed = true
 			} else {
 				vfAssert("w-readfrom-ok", vfAnd(err == nil, n == 1))
@@ -201,7 +208,7 @@ func H_life_w() {
 			if failed {
 				break
 			}
-			if tainted && err != nil {
+			if (tainted || flaky) && err != nil {
 				failed = true
 			} else if phase != 2 && conc {
 				vfAssert("w-flush-ok", err == nil)
@@ -223,7 +230,11 @@ func H_life_w() {
 			if failed {
 				break
 			}
-			if tainted && err != nil {
+			if conc && sink.failed {
+				// the sink failed under this frame: whether and where that is reported is C15's
+				// concern; here the calls only have to return until the next Reset
+				failed = true
+			} else if (tainted || flaky) && err != nil {
 				failed = true
 			} else if phase == 2 {
 				vfAssert("w-second-close-emits-nothing", len(sink.buf) == before)
